@@ -132,6 +132,24 @@ def run_case(chk, r, kind, els, pts, active, in_parts, npart, p, tag, coalesce=F
         chk.count("lean-reference-distances")
     if packed._meta.geometry.name != active:
         chk.violation("pack_partitions/active-geometry-changed", dict(rep, got=packed._meta.geometry.name), size=n); return
+    # packing what was packed before (another curve order): again indexed by the distances for the requested p, nothing left over
+    if r.random() < 0.4:
+        p2 = p + 2 if p <= 18 else p - 3
+        try:
+            re_parts = list(dask.compute(*packed.pack_partitions(npartitions=npart, p=p2).to_delayed(), scheduler="synchronous"))
+        except Exception as e:  # noqa: BLE001
+            if "divisions" in repr(e).lower() or "unique" in repr(e).lower():
+                re_parts = None
+            else:
+                chk.violation(f"pack_partitions/repack-raises-{common.err_kind(e)}", dict(rep, p2=p2, error=repr(e)[:300]), size=n); return
+        if re_parts is not None:
+            want2 = sorted((int(h2), row_key(row, cols, geom_cols)) for h2, (_, row) in
+                           zip(df[active].array.hilbert_distance(total_bounds=tb, p=p2), df.iterrows()))
+            extra = sorted({c for part in re_parts for c in part.columns} - set(cols))
+            got2 = sorted((int(h2), row_key(row, cols, geom_cols)) for part in re_parts for h2, (_, row) in zip(part.index, part.iterrows()))
+            if got2 != want2 or extra:
+                chk.violation("pack_partitions/repacking-a-packed-frame-keeps-the-old-index", dict(rep, p2=p2, extra_columns=extra, impl=got2[:5], expected=want2[:5]), size=n); return
+            chk.count("repacked")
     chk.nontriv(hash((tag, kind, json.dumps(els), active, in_parts, npart, p, coalesce)))
     chk.count(f"npartitions={npart}"); chk.count("active:" + active); chk.count("coalesced" if coalesce else "plain")
     return sorted(flat)
